@@ -124,7 +124,25 @@ func checkC12(c c12Case) (c12Verdict, bool, error) {
 			return c12Malformed, false, nil
 		}
 		if len(c.Patterns) > 1 {
-			return c12Malformed, false, nil // not compared
+			// no error: then at least the answer must come from the patterns,
+			// each read on its own (well-formed, or under the literal reading)
+			if gerr == pattern.NoMatch {
+				return c12Malformed, false, nil
+			}
+			var all []*ref.Pattern
+			for _, p := range c.Patterns {
+				if pt, err := ref.ParsePattern(p); err == nil {
+					all = append(all, pt)
+				} else if pt := lenient(p); pt != nil {
+					all = append(all, pt)
+				}
+			}
+			for _, k := range ref.Affixes(all, prefix, s) {
+				if cut(k) == got {
+					return c12Malformed, false, nil
+				}
+			}
+			return c12Malformed, false, fmt.Errorf("Match(%q, %s, %q): one pattern is malformed; got %q, which none of the patterns matches, however the malformed one is read", c.Patterns, modeName(c.Mode), c.Subject, got)
 		}
 		pt := lenient(c.Patterns[0])
 		if pt == nil {
@@ -145,23 +163,16 @@ func checkC12(c c12Case) (c12Verdict, bool, error) {
 	if gerr != nil {
 		return c12Checked, wild, fmt.Errorf("Match(%q, %s, %q): want %q, got error %v", c.Patterns, modeName(c.Mode), c.Subject, cut(aff[0]), gerr)
 	}
-	if len(pats) == 1 {
-		want := cut(aff[len(aff)-1])
-		if smallest {
-			want = cut(aff[0])
-		}
-		if got != want {
-			return c12Checked, wild, fmt.Errorf("Match(%q, %s, %q): want %q, got %q", c.Patterns, modeName(c.Mode), c.Subject, want, got)
-		}
-		return c12Checked, wild, nil
+	// one pattern or several ("several patterns match exactly when one of
+	// them does"): the shortest / longest affix any of them matches
+	want := cut(aff[len(aff)-1])
+	if smallest {
+		want = cut(aff[0])
 	}
-	// several patterns: the result must be an affix one of them matches
-	for _, k := range aff {
-		if cut(k) == got {
-			return c12Checked, wild, nil
-		}
+	if got != want {
+		return c12Checked, wild, fmt.Errorf("Match(%q, %s, %q): want %q, got %q", c.Patterns, modeName(c.Mode), c.Subject, want, got)
 	}
-	return c12Checked, wild, fmt.Errorf("Match(%q, %s, %q): got %q, which none of the patterns matches as a whole", c.Patterns, modeName(c.Mode), c.Subject, got)
+	return c12Checked, wild, nil
 }
 
 func init() {
@@ -268,6 +279,63 @@ func TestC12(t *testing.T) {
 	}
 	st.Exhaustive = true
 
+	// (a') unusual characters: U+FFFD (which decoders also use as their error
+	// value), a character beyond the BMP, a combining mark, NUL; and pairs of patterns
+	{
+		palpha := []string{"a", "*", "?", `\`, "\uFFFD", "\U0001F600", "e\u0301", "\x00"}
+		salpha := []string{"a", "\uFFFD", "\U0001F600", "\u0301", "\x00"}
+		subjects := wordsUpTo(salpha, 3)
+		pats := wordsUpTo(palpha, 3)
+		pi := 0
+		for _, p := range pats {
+			pi++
+			if pi%nsh != sh {
+				continue
+			}
+			var nt int64
+			for _, s := range subjects {
+				for _, m := range c12Modes {
+					c := c12Case{Patterns: []string{p}, Mode: m, Subject: s}
+					v, wild, err := checkC12(c)
+					if err != nil {
+						fail(t, "C12", "match", c, "%v", err)
+					}
+					if v == c12Checked && wild && s != "" {
+						nt++
+					}
+				}
+			}
+			st.EvalN(int64(len(subjects)*len(c12Modes)), nt)
+		}
+		two := wordsUpTo([]string{"a", "b", "*", "?", "[", "]"}, 2)
+		subj2 := wordsUpTo([]string{"a", "b", "|", "]"}, 3)
+		pi = 0
+		for _, p1 := range two {
+			for _, p2 := range two {
+				pi++
+				if pi%nsh != sh {
+					continue
+				}
+				var nt int64
+				for _, s := range subj2 {
+					for _, m := range c12Modes {
+						c := c12Case{Patterns: []string{p1, p2}, Mode: m, Subject: s}
+						v, wild, err := checkC12(c)
+						if err != nil {
+							fail(t, "C12", "match", c, "%v", err)
+						}
+						if v == c12Checked && wild && s != "" {
+							nt++
+						}
+					}
+				}
+				st.EvalN(int64(len(subj2)*len(c12Modes)), nt)
+				st.ClassN("exhaustive_pattern_pairs", int64(len(subj2)*len(c12Modes)))
+			}
+		}
+		st.Note("exhaustive: patterns of <= 3 symbols over %q x subjects of <= 3 symbols over %q x 4 modes; all pairs of patterns of <= 2 symbols over {a b * ? [ ]} x subjects of <= 3 symbols over {a b | ]} x 4 modes", palpha, salpha)
+	}
+
 	// (b) random longer patterns
 	n := 40000
 	if thorough() {
@@ -275,10 +343,10 @@ func TestC12(t *testing.T) {
 	}
 	n /= nsh
 	atom := rapid.OneOf(
-		rapid.SampledFrom([]string{"a", "b", "c", "é", "日", "x", "0", "9", "A", "Z", " ", "\n", "\t"}),
+		rapid.SampledFrom([]string{"a", "b", "c", "é", "日", "x", "0", "9", "A", "Z", " ", "\n", "\t", "\uFFFD", "\U0001F600", "\u0301", "\x00", "\r"}),
 		rapid.SampledFrom([]string{"*", "?", "*", "?"}),
 		rapid.SampledFrom([]string{".", "+", "(", ")", "|", "{", "}", "^", "$", "-", "!", "]", "#", "%", "~", "/", ",", ":", "=", "'", `"`}),
-		rapid.SampledFrom([]string{`\*`, `\?`, `\[`, `\]`, `\\`, `\.`, `\a`, `\é`, `\-`, `\(`, `\|`, `\$`, `\^`, `\+`, `\{`}),
+		rapid.SampledFrom([]string{`\*`, `\?`, `\[`, `\]`, `\\`, `\.`, `\a`, `\é`, `\-`, `\(`, `\|`, `\$`, `\^`, `\+`, `\{`, "\\\uFFFD", "\\\U0001F600"}),
 		rapid.Custom(func(t *rapid.T) string {
 			var b strings.Builder
 			b.WriteString("[")
@@ -308,7 +376,7 @@ func TestC12(t *testing.T) {
 		return strings.Join(rapid.SliceOfN(atom, 0, 7).Draw(t, "atoms"), "")
 	})
 	subjGen := rapid.Custom(func(t *rapid.T) string {
-		return strings.Join(rapid.SliceOfN(rapid.SampledFrom([]string{"a", "b", "c", "é", "日", "x", "y", "0", "9", "A", "Z", " ", "\n", "\t", ".", "+", "(", ")", "|", "{", "}", "^", "$", "-", "!", "]", "[", "*", "?", `\`, "#", "~", "/", ":"}), 0, 8).Draw(t, "subj"), "")
+		return strings.Join(rapid.SliceOfN(rapid.SampledFrom([]string{"a", "b", "c", "é", "日", "\uFFFD", "\U0001F600", "\u0301", "\x00", "x", "y", "0", "9", "A", "Z", " ", "\n", "\t", ".", "+", "(", ")", "|", "{", "}", "^", "$", "-", "!", "]", "[", "*", "?", `\`, "#", "~", "/", ":"}), 0, 8).Draw(t, "subj"), "")
 	})
 	modeGen := rapid.SampledFrom(append(append([]uint{}, c12Modes...), uint(pattern.Prefix), uint(pattern.Suffix), uint(pattern.Prefix|pattern.Smallest|pattern.Largest), uint(pattern.Suffix|pattern.Smallest|pattern.Largest), uint(pattern.Prefix|pattern.Suffix)))
 	prop := func(rt *rapid.T) {
